@@ -11,7 +11,9 @@ import numpy as np
 from simdag.gen.expr import Bin, Call, Cmp, Const, IfX, Logic, Not, Pow, Sub, Var
 from simdag.gen.script import PhaseS, Script
 
-UT_TEMPS = ["k", "k2", "y2", "ytmp", "w", "K", "yy", "k_stage_value_for_the_second_half_step_of_y"]
+UT_TEMPS = ["k", "k2", "y2", "ytmp", "w", "K", "yy", "k_stage_value_for_the_second_half_step_of_y",
+            # names spelled like the temporaries that the Fortran pipeline makes up itself
+            "temp_old", "tmp0"]
 SC_TEMPS = ["s", "r", "q", "c", "S", "tt", "e", "scratch_scalar_for_the_error_estimate_of_the_step"]
 ARR_TEMPS = ["a", "b", "arr", "vec", "c2"]
 DYADIC = [0.5, 2.0, 1.5, -0.5, 0.25, -1.0, 3.0, -2.0]
@@ -365,7 +367,7 @@ class FortranGen:
             D.discard(a)
             init_e = self.g_real(D, 1, counters=("i",))
             uts_ = self.of(D, "ut")
-            if uts_ and t.chance(0.3, "utinloop"):
+            if uts_ and t.chance(0.4, "utinloop"):
                 init_e = Bin("+", init_e, Bin("*", Var("i"), Call("<builtin>norm_2", [Var(self.pick(uts_, "lu"))])))
             out = [("call", (a,), Call("<builtin>array", [Const(n)]), self.mode()),
                    ("assign", a, Var("i"), init_e, [("i", Const(0), Const(n))], self.mode())]
